@@ -51,6 +51,7 @@ import (
 	"os"
 	"runtime"
 	"slices"
+	"strings"
 	_ "unsafe"
 
 	"golang.org/x/tools/go/ssa"
@@ -554,11 +555,36 @@ func callSSA(i *interpreter, caller *frame, callpos token.Pos, fn *ssa.Function,
 				return r
 			}
 		}
+		i.eng.memoMu.RLock()
+		impure := i.eng.impure[key]
+		i.eng.memoMu.RUnlock()
+		if impure || i.mon != nil {
+			return callSSAbody(i, fr, fn, args, env)
+		}
 		before := map[*ssa.Function]int64{}
 		for f, c := range i.fnCount {
 			before[f] = c
 		}
+		// purity guard: the first execution runs under an effect monitor; a
+		// result is memoised only if the call wrote no pre-existing cell
+		// (package globals included) and performed no synchronisation.
+		nEvents := len(i.ps.events)
+		i.mon = newMonitor(i, args)
 		r := callSSAbody(i, fr, fn, args, env)
+		writes := i.mon.writes
+		i.mon = nil
+		pure := len(writes) == 0
+		for _, ev := range i.ps.events[nEvents:] {
+			if strings.HasPrefix(ev, "sync:") {
+				pure = false
+			}
+		}
+		if !pure {
+			i.eng.memoMu.Lock()
+			i.eng.impure[key] = true
+			i.eng.memoMu.Unlock()
+			return r
+		}
 		if t, ok := r.(tuple); ok && len(t) == 2 {
 			if e, ok := t[1].(iface); ok && e.t == nil {
 				if cp, ok := deepCopy(r); ok {
